@@ -289,7 +289,7 @@ cfg["C22"] = {
 
 cfg["C27"] = {
     "title": "Service discovery subscribers converge to the registered set", "design_ref": "DESIGN.md §7.5 C27",
-    "runs": [{"dir": "discovery/helium", "quick": P("VerifHelium", "subs=2,steps=3", "subs=2,steps=3,slow=1", "subs=3,steps=2,choices=2"),
+    "runs": [{"dir": "discovery/helium", "quick": P("VerifHelium", "subs=2,steps=3", "subs=2,steps=3,slow=1", "subs=3,steps=2,choices=2", "subs=2,steps=3,choices=2"),
               "thorough": P("VerifHelium", "subs=2,steps=3", "subs=2,steps=3,slow=1", "subs=3,steps=2,choices=2", "subs=2,steps=4", "subs=3,steps=3,slow=1", "subs=2,steps=3,choices=4", "subs=2,steps=3,sched=lazy"), "samples": 2}],
     "bounds": "the real Helium (New/start loop, dispatch, Subscribe, Unsubscribe) with 2-3 subscribers, each reading promptly (a goroutine draining its channel) or slow (not reading; symbolic per subscriber), and a SYMBOLIC sequence of 2-4 environment events: registrations change (one of three address sets arrives on the store's watch stream), the push interval elapses (a tick), a subscriber's context ends, a subscriber unsubscribes (after its context ended, as the cluster layer does). After every event the system runs until every goroutine is idle; then every live prompt subscriber must hold the latest registered set, and an unsubscribed one must have seen its channel closed. Go channel semantics are exact (unbuffered = rendezvous, select = first ready case); goroutines are scheduled cooperatively (eager; thorough also lazy and 2-4 symbolic scheduling choices). A call that can never return is a hang violation",
     "outside": "the etcd watch behind ServiceStatusStream (store/etcdv3/service.go: I/O) and service registration itself; real time (the ticker is a channel the harness feeds; 'within one push interval' is read as 'after the next dispatch'); more than 3 subscribers or 4 events; subscribing while the loop is running concurrently with a dispatch (haxmap's own thread-safety); the RPC layer's WatchServiceStatus loop",
@@ -299,11 +299,30 @@ cfg["C27"] = {
 
 cfg["C28"] = {
     "title": "A failed node's workloads are reported down", "design_ref": "DESIGN.md §7.5 C28",
-    "runs": [{"dir": "selfmon", "quick": P("VerifSelfmon", "nodes=2,steps=3", "nodes=3,steps=2", "nodes=2,steps=3,sched=lazy"), "thorough": P("VerifSelfmon", "nodes=2,steps=3", "nodes=3,steps=3", "nodes=2,steps=4", "nodes=2,steps=3,sched=lazy", "nodes=2,steps=3,choices=3"), "samples": 2},
+    "runs": [{"dir": "selfmon", "quick": P("VerifSelfmon", "nodes=2,steps=3", "nodes=3,steps=2", "nodes=2,steps=3,sched=lazy", "nodes=2,steps=3,choices=2"), "thorough": P("VerifSelfmon", "nodes=2,steps=3", "nodes=3,steps=3", "nodes=2,steps=4", "nodes=2,steps=3,sched=lazy", "nodes=2,steps=3,choices=3"), "samples": 2},
              {"dir": CAL, "inline_go": True, "quick": P("VerifSetNodeDown", "fault=8,wl=3"), "thorough": P("VerifSetNodeDown", "fault=8,wl=3", "fault=10,wl=3,sched=lazy"), "samples": 3}],
-    "bounds": "two halves, both real code, composed by argument. Watcher half (selfmon: withActiveLock, monitor, initNodeStatus, dealNodeStatusMessage under the cooperative scheduler with exact channel semantics): 2-3 nodes, a SYMBOLIC sequence of 2-4 events (a node's heartbeat status disappears, a heartbeat arrives, the watcher becomes active), the watcher active from the beginning or activated later; at idleness every node whose status lapsed - while the watcher was active, or before it became active and still lapsed then - has had SetNode(WorkloadsDown) requested, and no node that never lapsed has. Cluster half (Calcium.SetNode with WorkloadsDown -> setAllWorkloadsOnNodeDown in the ledger world): 3 workloads spread over two nodes (symbolic), no fault or one fault at any store / plugin call: every workload recorded on the node is reported not running and not healthy under its own id/app/entrypoint, workloads of the other node are untouched",
+    "bounds": "two halves, both real code, composed by argument. Watcher half (selfmon: withActiveLock, monitor, initNodeStatus, dealNodeStatusMessage under the cooperative scheduler with exact channel semantics): 2-3 nodes, a SYMBOLIC sequence of 2-4 events (a node's heartbeat status disappears, a heartbeat arrives, the watcher becomes active), the watcher active from the beginning or activated later, SetNode calls that may outlast the configured global timeout (symbolic: every deadline armed so far then elapses), and - with choices=n - a symbolic pick among several ready select cases (Go picks at random); at idleness every node whose status lapsed - while the watcher was active, or before it became active and still lapsed then - has had SetNode(WorkloadsDown) requested, and no node that never lapsed has. Cluster half (Calcium.SetNode with WorkloadsDown -> setAllWorkloadsOnNodeDown in the ledger world): 3 workloads spread over two nodes (symbolic), no fault or one fault at any store / plugin call: every workload recorded on the node is reported not running and not healthy under its own id/app/entrypoint, workloads of the other node are untouched",
     "outside": "how the stores produce the status stream (etcd watch / Redis keyspace events: I/O) and TTL expiry itself; the active-watcher election (StartEphemeral is a model that always grants: C26); time.Sleep back-offs; a status write the store refuses (a store failure); 'eventually' is read as 'when every goroutine is idle'",
     "assumptions": [cal_stubs, "cluster.Cluster (ListPodNodes, GetNodeStatus, NodeStatusStream, SetNode) and store.StartEphemeral are in-harness models in the watcher half; the ledger world of C10/C11 in the cluster half"],
+}
+
+ETCDM = 'store/etcdv3/meta'
+etcd_model = ("the etcd server is an in-harness model: keys with version / create / mod revision and an attached lease, leases with a granted TTL and an expiry instant on a VIRTUAL clock (an expired or revoked lease takes its keys with it; a put re-binds the key to the put's lease), "
+              "transactions evaluated like the server does (every comparison against the pre-state, then the chosen branch, nested transactions recursively, a put naming a missing lease fails the whole transaction); "
+              "the requests themselves (Compare, OpPut, OpGet, OpDelete, OpTxn, WithLease ...) are built by the REAL clientv3 code, executed from its SSA, and only interpreted by the model (the private lease id of an Op is read through the vFieldInt intrinsic)")
+cfg["C25"] = {
+    "title": "Status reports are bound to live entities and expire", "design_ref": "DESIGN.md §7.5 C25/C26",
+    "runs": [{"dir": ETCDM, "quick": P("VerifBindStatus", "steps=4", "steps=2,fault=1"), "thorough": P("VerifBindStatus", "steps=4", "steps=5", "steps=3,fault=1"), "samples": 4}],
+    "bounds": "etcd backend, one entity and its status key: the real ETCD.BindStatus / bindStatusWithTTL / bindStatusWithoutTTL / isTTLChanged / GetOne / BatchDelete over a SYMBOLIC sequence of 4 (thorough 5) events - a report (one of two values; TTL zero or any TTL in [1,3600] s, symbolic: equal to an earlier TTL or not is the solver's case split), time passing (any amount in [1,7200] s, symbolic), the entity removed together with its status (as the store does), the entity created - optionally with one failing lease call (grant / time-to-live / keepalive / revoke) at a symbolic position; after every event the status must be visible exactly when a reference model (latest value, expiry instant) says so, with the latest value; a report with a positive TTL for a missing entity must be refused",
+    "outside": "the Redis backend (go-redis against a server: I/O); the store layer above meta (key layout, JSON, negative TTL = delete in store/etcdv3/node.go); etcd's minimum lease TTL and the granularity of lease expiry; concurrent reports for one key; watch streams",
+    "assumptions": [common_stubs, etcd_model],
+}
+cfg["C26"] = {
+    "title": "Ephemeral registrations are exclusive and owner-safe", "design_ref": "DESIGN.md §7.5 C25/C26",
+    "runs": [{"dir": ETCDM, "quick": P("VerifEphemeral", "steps=4", "steps=4,sched=lazy"), "thorough": P("VerifEphemeral", "steps=4", "steps=5", "steps=4,sched=lazy", "steps=4,choices=3"), "samples": 2}],
+    "bounds": "etcd backend, two registrants on one key: the real ETCD.StartEphemeral (lease grant, create-if-absent transaction, keepalive goroutine with its ticker, revoke on exit, the returned expiry channel and unregister function) under the cooperative scheduler; a SYMBOLIC sequence of 4 (thorough 5) events - a registrant registers, its heartbeat fires, time passes (any amount in [1,30] s against a 9 s TTL: shorter or longer than the TTL), a registrant deregisters. After every event: a refused registration only while the key is held; every registrant that has had a heartbeat since the clock moved and has not been notified of a lapse really owns the key, and there is at most one; the key always belongs to the lease of the registrant that created it and that lease is live",
+    "outside": "the Redis backend (SETNX / EXPIRE / DEL against a server); a paused registrant keeps believing until its next heartbeat (inherent to leases: the exclusivity claim is about registrants whose heartbeat ran); selfmon's use of the key (its watcher half is C28); real time (the ticker is a channel the harness feeds)",
+    "assumptions": [common_stubs, etcd_model, "time.NewTicker: a harness-fed channel per keepalive loop; context: tree model with real Done channels"],
 }
 
 cfg["C35"] = {
@@ -315,6 +334,8 @@ cfg["C35"] = {
 }
 
 meta = {
+    "C25": "meta.ETCD.BindStatus and helpers run against a model etcd (virtual clock, leases, server-like transactions) with the real clientv3 request builders; events, TTLs and elapsed times are symbolic; z3-decided paths prove the status is visible exactly while a reference model says it is alive, with the latest value, and that reports for a missing entity are refused.",
+    "C26": "meta.ETCD.StartEphemeral (with its keepalive goroutine under the cooperative scheduler) runs for two registrants against the model etcd over a symbolic event sequence with symbolic pauses; z3-decided paths prove exclusivity among registrants whose heartbeat ran, notification of lapses, and that the key always belongs to its creator's live lease.",
     "C28": "selfmon's watcher (withActiveLock, monitor, initNodeStatus, dealNodeStatusMessage) runs under gosym's scheduler against a model cluster with a symbolic sequence of heartbeat lapses / arrivals / activation; Calcium.SetNode(WorkloadsDown) runs against the ledger world with a symbolic single fault; z3-decided paths prove that every lapsed node gets its workloads-down request and that the request reports every workload recorded on that node as neither running nor healthy.",
     "C27": "discovery/helium's loop, dispatch, Subscribe and Unsubscribe are executed under gosym's cooperative scheduler with exact Go channel semantics; the environment's events (registration change, tick, context end, unsubscribe) are a symbolic sequence and each subscriber is symbolically prompt or slow; z3-decided paths prove convergence of every live prompt subscriber and completion of Unsubscribe, outside one recorded finding (a slow subscriber blocks the dispatcher).",
     "C22": "Two real cluster API calls (RemoveNode, CreateWorkload, SetNode, RemoveWorkload ...) run as two interpreted goroutines over one ledger world with blocking locks under gosym's cooperative scheduler; each external call is a scheduling point and the preemption decisions are symbolic Booleans, so the solver-driven exploration covers every interleaving at external-call granularity within the preemption budget; z3-decided paths prove referential consistency at quiescence, outside one recorded finding (remove-node racing with a deployment on that node).",
